@@ -230,3 +230,20 @@ C16_UNITS += [
          quick=dict(explore=dict(n=300), dfs=dict(max=300, pb=2)), thorough=dict(explore=dict(n=3000), dfs=dict(max=3000, pb=3))),
 ]
 PROPS["C16"] = dict(assumptions=["the event queue is a linearizable FIFO (C03); AbsBlocker (C02); join contract (C01)"], units=C16_UNITS)
+
+def scunit(name, n=400, **params):
+    return dict(name=name, scenario="scope", params=dict(workers=8, **params),
+                quick=dict(explore=dict(n=n), dfs=dict(max=n, pb=2)),
+                thorough=dict(explore=dict(n=10 * n), dfs=dict(max=10 * n, pb=3)))
+PROPS["C14"] = dict(
+    assumptions=["AbsBlocker (C02); join contract (C01)"],
+    units=[
+        dict(name="scope_spec",
+             tlc=[("spec/l2/Scope.tla", "spec/l2/MCScope_F7.cfg"), ("spec/l2/Scope.tla", "spec/l2/MCScope_fixed.cfg")],
+             tlc_expect_error="FrameOutlivesChildren is violated"),
+        scunit("cancel_owner", children=2, steps=2, owner_co=True, cancel_owner=True, n=500),
+        scunit("owner_panic", children=2, steps=2, owner_co=True, owner_panic=True),
+        scunit("child_panic", children=2, steps=1, owner_co=False, child_panic=1),
+        scunit("plain_thread", children=2, steps=2, owner_co=False),
+    ] + [dict(u, name="cq_" + u["name"]) for u in C16_UNITS if u["name"] in ("select2", "select2_co", "kernel_race", "panic_top")],
+)
